@@ -95,9 +95,23 @@ SOURCE_OF = {"C01": ["ac_generate_ac"], "C02": ["ac_generate_arpc_1", "ac_genera
 SOURCE_MODULE = {t: m for m, ts in SOURCE_THMS.items() for t in ts}
 
 
+def src_index(pid=None):
+    """property theorems restated about the translated definitions (lean/PyemvGen/Src, written by lean/mk_source.py):
+    [{module, uses: [refinement theorems], theorem}]"""
+    try:
+        idx = json.load(open(os.path.join(LEAN, "PyemvGen", "Src", "index.json")))
+    except Exception:  # noqa: BLE001
+        return []
+    return idx.get(pid, []) if pid else [e for v in idx.values() for e in v]
+
+
+SRC_BY_THM = {e["theorem"]: e for e in src_index()}
+
+
 def gen_obligations(pid):
     out = ["Pyemv.ModRefines." + n for n in MOD_FUNCS.get(pid, [])]
     out += ["Pyemv.ModRefines." + t for m in SOURCE_OF.get(pid, []) for t in SOURCE_THMS[m]]
+    out += [e["theorem"] for e in src_index(pid)]
     out += ["Pyemv.TlvRefines." + n for n in TLV_FUNCS.get(pid, [])]
     if pid in CVN_PIDS:
         gen = json.load(open(os.path.join(LEAN, "obligations.json"))).get("C08_gen", [])
@@ -157,6 +171,13 @@ def mod_job(pid, problems):
             why = (f"it calls {', '.join(callee)}, which is no longer translated / proved" if callee
                    else "the refinement proof no longer closes: " + bad["PyemvGen.Mod." + n])
             problems.append(("ModRefines." + n, f"ModRefines.{n}: the definition translated from the current source is no longer proved equal to the model — {why}"))
+    # the property's theorems restated about the translated definitions: built where every refinement they use stands
+    down = {tag.split(".", 1)[1] for tag, _ in problems if tag.startswith("ModRefines.")}
+    srcmods = sorted({e["module"] for e in src_index(pid) if not (set(e["uses"]) & down)})
+    bad, _ = build_each(["PyemvGen.Src." + m for m in srcmods])
+    for m in srcmods:
+        if ("PyemvGen.Src." + m) in bad:
+            problems.append(("Src." + m, f"Src.{m}: the property theorems restated about the translated definitions no longer check: " + bad["PyemvGen.Src." + m]))
 
 
 TLV_HALF = {"tlv_decode": "decode", "decode_loop_eq": "decode", "tlv_decode_sim": "decode", "tlv_encode": "encode", "encode_for_eq": "encode"}
@@ -242,6 +263,9 @@ def obligations(pid, gen=True):
 
 def is_broken(name, broken):
     last = name.split(".")[-1]
+    if name in SRC_BY_THM:
+        e = SRC_BY_THM[name]
+        return ("Src." + e["module"]) in broken or any(("ModRefines." + u) in broken for u in e["uses"])
     if last in SOURCE_MODULE and ("ModRefines." + SOURCE_MODULE[last]) in broken:
         return True
     return any(("." + b + ".") in name or name.endswith("." + b) for b in broken)
@@ -255,6 +279,8 @@ def audit(pid, workdir, broken=()):
         return [], [], [f"no theorem registered for {pid}"]
     printable = [n for n in names if not is_broken(n, broken)]
     imports = "import PyemvProps\n"
+    for m in sorted({SRC_BY_THM[n]["module"] for n in printable if n in SRC_BY_THM}):
+        imports += "import PyemvGen.Src." + m + "\n"
     for n in printable:
         if ".ModRefines." in n:
             last = n.split(".")[-1]
